@@ -36,7 +36,7 @@ CHECK = {
         "and be reported as a broken run, not recovered",
         "strings are valid UTF-8 (proto3 rejects others at encode time, JSON replaces them); time stamps lie in years 1..9999",
         "decoding targets are fresh values (dsstate, gorpc, the REST API and go-libp2p-raft all decode into new values)",
-        "PinOptions.FromQuery's expire-in (relative to the wall clock) is exercised by the decoder search only",
+        "an acceptable expire-in without expire-at gives a wall-clock dependent expiry: exercised by the decoder search only (its validation is modelled)",
         "nil and empty slices/maps are one value; a timestamp is its instant (time zone not compared)",
     ],
 }
@@ -46,13 +46,13 @@ META = {
             "PinOptions.Origins (refutation of the full statement proved, known finding) and an opaque tracing field; (L2) for every pin, "
             "ProtoUnmarshal(ProtoMarshal(p)) is exactly an explicit lossy projection, and that projection is accepted by the property's comparison "
             "when mode and depth agree (refuted otherwise: finding); same for FromQuery(ToQuery(po)); string forms of every status/mode/type and of "
-            "every status filter that does not split a composite (refuted otherwise: finding); Pin.Equals/PinOptions.Equals are reflexive, symmetric, "
+            "every filter of known statuses (in full, general proof); Pin.Equals/PinOptions.Equals are reflexive, symmetric, "
             "transitive and never overlook a difference, for distinct pointers (not reflexive for one pointer). (L3) every run drives the real "
             "encoders and decoders on all 23 record types x formats and compares, field by field with the harness's own dumper, against the model's "
             "prediction and against the property's comparison.",
     "note": "Decoder robustness is search only (mutated encodings + random bytes under recover). Known findings on the unchanged tree: K01 origins not "
-            "decodable (msgpack, JSON), K13 stored form loses Mode when it disagrees with MaxDepth, K14 status filters widened by their string form, "
+            "decodable (msgpack, JSON), K13 stored form loses Mode when it disagrees with MaxDepth, "
             "K16 msgpack nil in an address list decodes to a value that cannot be re-encoded (an error since f2e567e, no panic). "
-            "K15 (JSON decoding of an invalid multiaddress panicked) is fixed by f2e567e.",
+            "K15 (JSON decoding of an invalid multiaddress panicked) is fixed by f2e567e, K14 (status filters widened by their string form) by d6bd794.",
     "technique": "Lean 4 decide-theorems over a reflection-generated schema table + theorems over hand models of the converters + differential correspondence + mutation-based decoder search",
 }
